@@ -155,6 +155,51 @@ def run_history(tier):
     return n, viol
 
 
+def run_identity_reuse():
+    """verdicts must belong to VALUES, not to the addresses they live at: a container is judged, freed, and a container of
+    the same size and the opposite verdict is created right away (CPython hands the freed block to it); tuples and
+    frozensets of 20..300 items, both directions, top level and nested"""
+    viol = []
+    n = 0
+    reused = 0
+    for size in (20, 31, 32, 33, 40, 64, 255, 256, 300):
+        for kind in ("tuple", "frozenset", "nested"):
+            for first_bad in (True, False):
+                for rep in range(3):
+                    def make(bad):
+                        items = list(range(1000, 1000 + size))
+                        if bad:
+                            items[-1] = [size] if kind != "frozenset" else brine      # a list / a module: by reference only
+                        if kind == "tuple":
+                            return tuple(items)
+                        if kind == "frozenset":
+                            return frozenset(items)
+                        return (0, tuple(items))
+                    a = make(first_bad)
+                    ida = id(a if kind != "nested" else a[1])
+                    va = brine.dumpable(a)
+                    del a
+                    b = make(not first_bad)
+                    if id(b if kind != "nested" else b[1]) == ida:
+                        reused += 1
+                    n += 1
+                    vb = brine.dumpable(b)
+                    want_b = first_bad           # b is good exactly when a was bad
+                    try:
+                        brine.dump(b)
+                        dumped = True
+                    except TypeError:
+                        dumped = False
+                    except Exception as ex:   # noqa
+                        dumped = type(ex).__name__
+                    if va != (not first_bad) or vb != want_b or dumped != want_b:
+                        viol.append(("verdict-follows-the-address:%s:size=%d" % (kind, size),
+                                     "%s of %d items judged right after a freed one of the opposite kind: dumpable()=%r dump()=%r, expected %r "
+                                     "(first: dumpable()=%r expected %r)" % (kind, size, vb, dumped, want_b, va, not first_bad)))
+                    del b
+    return n, reused, viol[:8]
+
+
 # ------------------------------------------------------------------ decode side
 def check_decode(data):
     _audit["events"] = []
@@ -301,6 +346,11 @@ def main(tier, replay_obj=None):
     res.parts["encode-history"] = {"earlier_call_x_probe": n, "probes": len(history_probes())}
     for sig, text in viol:
         res.violation(sig, text, {"kind": "history", "label": text.split(":")[0]})
+    n, reused, viol = run_identity_reuse()
+    res.evaluations += n
+    res.parts["address-reuse"] = {"pairs": n, "pairs_where_the_address_was_really_reused": reused}
+    for sig, text in viol:
+        res.violation(sig, text, {"kind": "address-reuse"})
     specs = decode_specs(tier)
     outs = runner.pmap(decode_shard, [(s,) for s in specs], chunksize=1)
     total = 0
